@@ -2,16 +2,21 @@
 (* Trace validation for eth2wrap.multi (provide/submit over forkjoin).  The executor (harness/c19) runs every call in
    a testing/synctest bubble and logs an event only after synctest.Wait() reported that every goroutine of the call
    is durably blocked -- the component is quiescent, so the effects of a stimulus are complete when it is logged:
-     {"ev":"Reset","sid":n,"P":p,"B":b,"style":"att"|"sync"|"submit","out":[variant per node]}
-     {"ev":"Call","started":[nodes invoked so far]}
-     {"ev":"NodeDone","i":node released with its scripted outcome,"started":[...]}
-     {"ev":"CancelCaller","how":"cancel"|"deadline"}
-     {"ev":"Return","kind":"ok"|"nok"|"err"|"ctx","by":node whose answer came back}    right after the stimulus
-     {"ev":"End","started":[...],"cancelled":[nodes whose blocked call saw its context cancelled]}
+     {"ev":"Reset","sid":n,"P":p,"B":b,"style":"att"|"sync"|"submit","out":[variant per node],
+                  "deaf":[per node: its requests ignore their context],"t":0}
+     {"ev":"Call","started":[nodes invoked so far],"t":virtual seconds since the start of the schedule}
+     {"ev":"NodeDone","i":node released with its scripted outcome,"started":[...],"t":..}
+     {"ev":"CancelCaller","how":"cancel"|"deadline","t":..}
+     {"ev":"Return","kind":"ok"|"nok"|"err"|"ctx","by":node whose answer came back,
+                   "t":virtual time at which the call returned, taken by the calling goroutine}    right after the stimulus
+     {"ev":"End","started":[...],"cancelled":[nodes still blocked in a request whose context is cancelled],"t":..}
    Urgency: because of the quiescence, a call whose answer is fixed HAS returned before the next event is logged
-   (RetDue => the next event is Return) -- this is "does not wait for slower or hung nodes": after the first
-   successful release the trace must continue with Return although other nodes are still blocked; and a cancelled
-   call has its ctx answer (CtxDue => the silent CtxReturn comes first).
+   (RetDue => the next event is Return) -- this is "does not wait for slower, hung or stuck nodes": after the first
+   successful release the trace must continue with Return although other nodes are still blocked, also those that
+   ignore the cancellation of their context; and a cancelled call has its ctx answer (CtxDue => the silent CtxReturn
+   comes first).  The executor moves the virtual clock by one second before every stimulus: the Return carries the
+   time of the stimulus that decided it.  A Return that shows up only after the executor released a stuck node (a
+   later step, a later time) has no matching step: the release is a NodeDone event, which needs ~RetDue.
    Latitude where the property statement is silent (FallbackMode = "free" in the cfg, and below):
      * which failed node's failure is reported when all failed (the code: the last examined one)
      * a cancelled call may report the caller's ctx error or the ctx error of one of its cancelled nodes
@@ -31,7 +36,8 @@ ClassOf == [ok |-> "ok", nok |-> "nok", hang |-> "hang", notsynced |-> NotSynced
 tvars == <<vars, tr, l>>
 R == Trace[1]
 TraceInit == /\ TrInit
-             /\ InitWith(R.P, R.B, R.style, [i \in 1..(R.P + R.B) |-> ClassOf[R.out[i]]])
+             /\ InitWith(R.P, R.B, R.style, [i \in 1..(R.P + R.B) |-> ClassOf[R.out[i]]],
+                         {i \in 1..(R.P + R.B) : R.deaf[i]})
 Quiet == ~CtxDue /\ ~RetDue
 TReset == IsEvent("Reset") /\ l = 1 /\ UNCHANGED vars
 TCall == /\ IsEvent("Call") /\ Quiet /\ Call
@@ -43,11 +49,12 @@ TCtx == CtxReturn /\ Silent
 \* failed nodes of the fork-join that produced the failure
 FailedOfPhase == {j \in done : Failed(j) /\ ((j \in Fall) = usedFallback)}
 TReturn == /\ IsEvent("Return") /\ Deliver
+           /\ Ev.t = Trace[l - 1].t       \* returned at the virtual time of the stimulus just logged
            /\ \/ Ev.kind = "ok" /\ ret.k = "ok" /\ (Ev.by = ret.by \/ (style = "submit" /\ Ev.by = 0))
               \/ Ev.kind \in {"err", "nok"} /\ ret.k \in {"err", "nok"} /\ Ev.by \in FailedOfPhase
                    /\ (Ev.kind = "nok") = (outcome[Ev.by] = "nok")
               \/ Ev.kind = "ctx" /\ ret.k = "ctx"
-              \/ Ev.kind = "err" /\ ret.k = "ctx" /\ Ev.by \in wcanc
+              \/ Ev.kind = "err" /\ ret.k = "ctx" /\ Ev.by \in wcanc \ deaf
 TEnd == /\ IsEvent("End") /\ l = TLen /\ Quiet /\ UNCHANGED vars
         /\ (phase = "done" => SeqToSet(Ev.cancelled) = wcanc)
         /\ (~cancelled => SeqToSet(Ev.started) = started)
